@@ -3939,7 +3939,10 @@ class mulgrid(object):
                     nn = col.num_nodes
                     for i, corner in enumerate(col.node):
                         next_corner = col.node[(i + 1) % nn]
-                        if (corner in bdy) and (next_corner in bdy):
+                        if (corner in bdy) and (next_corner in bdy) and not \
+                           (frozenset((corner.name, next_corner.name)) in sidenodes):
+                            # (an interior side can also have both its nodes on the
+                            # boundary- it already has its midside node)
                             sidenodes, nodenumber = create_mid_node(corner, next_corner,
                                                                     sidenodes, nodenumber)
             def transition_type(nn, sides):
